@@ -62,6 +62,28 @@ impl Ob for KImp { fn ob(&self, a: u64) -> u64 { self.id ^ a ^ 2 } }
 cglue_trait_group!(GK, { Mand }, { Oa, Ob, Clone });
 cglue_impl_group!(KImp, GK, { Oa, Ob, Clone });
 
+/// two groups with the SAME NAME in different modules (different optional lists); the impl of the
+/// first is expanded after the definition of the second
+pub mod ma {
+    use super::*;
+    cglue_trait_group!(GS, { Mand }, { Oa, Ob });
+}
+pub mod mb {
+    use super::*;
+    cglue_trait_group!(GS, { Mand }, { Oc });
+    cglue_impl_group!(KImp2, GS, { Oc });
+}
+pub struct KImp2 { pub id: u64 }
+impl Mand for KImp2 { fn mand(&self, a: u64) -> u64 { self.id ^ a } }
+impl Oa for KImp2 { fn oa(&self, a: u64) -> u64 { self.id ^ a ^ 1 } }
+impl Ob for KImp2 { fn ob(&self, a: u64) -> u64 { self.id ^ a ^ 2 } }
+impl Oc for KImp2 { fn oc(&self, a: u64) -> u64 { self.id ^ a ^ 3 } }
+pub mod ma_impl {
+    use super::ma::*;
+    use super::*;
+    cglue_impl_group!(KImp2, GS, { Oa, Ob });
+}
+
 pub mod generated;
 #[cfg(kani)]
 mod verif {
@@ -154,6 +176,54 @@ mod verif {
             assert!(r.oa(a) == id ^ a ^ 1 && r.mand(a) == id ^ a, "C08 as_mut on a strict subset dispatches to the same instance");
         }
         kani::cover!(true, "end");
+    }
+    #[kani::proof]
+    #[kani::unwind(14)]
+    fn p_cast_same_named_groups() {
+        // two groups called GS in different modules: each offers exactly what ITS impl enabled
+        let (id, a): (u64, u64) = kani::any();
+        {
+            use super::ma::*;
+            let g = group_obj!(KImp2 { id } as GS);
+            assert!(check!(g impl Oa) && check!(g impl Ob) && check!(g impl Oa + Ob), "C08 the first of two same-named groups offers the traits its impl enabled");
+            let c = cast!(g impl Oa + Ob).unwrap();
+            assert!(c.oa(a) == id ^ a ^ 1 && c.ob(a) == id ^ a ^ 2 && c.mand(a) == id ^ a, "C08 and dispatches to the instance");
+        }
+        {
+            use super::mb::*;
+            let g = group_obj!(KImp2 { id } as GS);
+            assert!(check!(g impl Oc) && as_ref!(g impl Oc).unwrap().oc(a) == id ^ a ^ 3, "C08 the second same-named group offers its own optional trait");
+        }
+        kani::cover!(true, "end");
+    }
+    #[kani::proof]
+    #[kani::unwind(14)]
+    fn p_cast_qualified_names() {
+        // traits named by PATH in a request count like any other: the request succeeds iff all of
+        // them (qualified or not) are enabled
+        let mut st: State = kani::any();
+        let (id, a): (u64, u64) = kani::any();
+        use super::generated::*;
+        let which: u8 = kani::any();
+        kani::assume(which < 3);
+        match which {
+            0 => {
+                let g = group_obj!(I2_Oa::new(&mut st, id) as G2);   // Oa enabled, Oc not
+                assert!(!check!(g impl crate::Oc + Oa) && !check!(g impl Oa + crate::Oc), "C08 a request containing an absent trait named by path fails");
+                // (requests made ONLY of qualified names are avoided on purpose: a change that
+                // ignores qualified names turns them into compile errors, which would hide the rest)
+                assert!(cast!(g impl crate::Oc + Oa).is_none(), "C08 cast with an absent trait named by path fails");
+            }
+            1 => {
+                let g = group_obj!(I2_Oa::new(&mut st, id) as G2);
+                assert!(into!(g impl Oa + crate::Oc).is_none(), "C08 into with an absent trait named by path fails");
+            }
+            _ => {
+                let mut g = group_obj!(I2_Oa::new(&mut st, id) as G2);
+                assert!(as_ref!(g impl crate::Oc + Oa).is_none() && as_mut!(g impl Oa + crate::Oc).is_none(), "C08 as_ref / as_mut with an absent trait named by path fail");
+            }
+        }
+        kani::cover!(which == 0, "check/cast");
     }
     #[kani::proof]
     fn canary_c08() {
